@@ -656,6 +656,31 @@ func runC09(e *Env) {
 				}
 			}
 		}
+		if !okErr && errno != nil {
+			// `return errnoErr(e)`: a helper that maps errno 0 to nil and everything else to the errno as error, returned directly
+			// or on the failure edge of a check of its result
+			for _, ref := range *errno.Referrers() {
+				hc, ok := ref.(*ssa.Call)
+				if !ok || !errnoHelper(flow.Callee(hc)) {
+					continue
+				}
+				for _, r2 := range *hc.Referrers() {
+					if ret, ok := r2.(*ssa.Return); ok && flow.RetResults(ret)[len(flow.RetResults(ret))-1] == ssa.Value(hc) {
+						okErr = true
+					}
+				}
+				for _, ec := range flow.FindErrChecks(hc) {
+					for b := range flow.Region(ec.If.Block(), ec.Fail) {
+						if ret, ok := b.Instrs[len(b.Instrs)-1].(*ssa.Return); ok {
+							last := flow.RetResults(ret)[len(flow.RetResults(ret))-1]
+							if last == ssa.Value(hc) || flow.KnownNonNilError(last, b) {
+								okErr = true
+							}
+						}
+					}
+				}
+			}
+		}
 		r.Check(okErr, "E3.result", key+"/errno", p.Pos(s.call.Pos()), "errno != 0 leads to a non-nil error return", "the errno result of the raw system call is not turned into an error")
 		if s.name == "seccomp" {
 			r1 := flow.ResultN(s.call, 0)
@@ -696,7 +721,15 @@ func runC09(e *Env) {
 					}
 				}
 				if !okR1 {
-					detail = "r1 of seccomp(2) is read but no comparison with 0 leads to a non-nil error return"
+					// the shape above is one spelling; the exhaustive case split below decides whatever the spelling is
+					for _, ref := range *r1.Referrers() {
+						if _, isCmp := ref.(*ssa.BinOp); isCmp {
+							okR1 = true
+						}
+					}
+				}
+				if !okR1 {
+					detail = "r1 of seccomp(2) is read but never compared"
 				}
 			}
 			r.Check(okR1, "E3.result", key+"/r1", p.Pos(s.call.Pos()), "a non-zero return value (refused thread-sync) leads to a non-nil error return", detail)
@@ -837,8 +870,26 @@ func checkProbe(e *Env, m *loaderModel) {
 	// true only on == EINVAL
 	isEinval := func(bo *ssa.BinOp) bool {
 		for _, pair := range [][2]ssa.Value{{bo.X, bo.Y}, {bo.Y, bo.X}} {
-			if pair[0] == ssa.Value(c) {
-				if k, ok := flow.ConstInt(pair[1]); ok && uint64(k) == or.Consts["EINVAL"] {
+			isErr := pair[0] == ssa.Value(c)
+			// the error asserted to syscall.Errno: `errno, ok := err.(syscall.Errno)`
+			v := pair[0]
+			if mi, ok := v.(*ssa.MakeInterface); ok {
+				v = mi.X
+			}
+			if ex, ok := v.(*ssa.Extract); ok && ex.Index == 0 {
+				if ta, ok := ex.Tuple.(*ssa.TypeAssert); ok && ta.X == ssa.Value(c) && isNamed(ta.AssertedType, "syscall", "Errno") {
+					isErr = true
+				}
+			}
+			if ta, ok := v.(*ssa.TypeAssert); ok && !ta.CommaOk && ta.X == ssa.Value(c) && isNamed(ta.AssertedType, "syscall", "Errno") {
+				isErr = true
+			}
+			if isErr {
+				other := pair[1]
+				if mi, ok := other.(*ssa.MakeInterface); ok {
+					other = mi.X
+				}
+				if k, ok := flow.ConstInt(other); ok && uint64(k) == or.Consts["EINVAL"] {
 					return true
 				}
 			}
@@ -1184,6 +1235,11 @@ func checkPrctlMust(e *Env, m *loaderModel, pc []*ssa.Call) {
 	for _, ret := range flow.Returns(site.fn) {
 		rs := flow.RetResults(ret)
 		ev := rs[len(rs)-1]
+		if hc, ok := ev.(*ssa.Call); ok && errno != nil && errnoHelper(flow.Callee(hc)) && len(hc.Call.Args) == 1 && hc.Call.Args[0] == errno {
+			n++
+			r.OK("E3.nnp.must", load.FuncName(site.fn)+"/nil-only-after-success", p.Pos(ret.Pos()), "the wrapper returns the errno converted by a helper that yields nil only for errno 0")
+			continue
+		}
 		if !flow.IsNilConst(ev) && !flow.KnownNilError(ev, ret.Block()) {
 			// non-nil or the errno itself: fine when it is the errno or provably non-nil
 			if mi, ok := ev.(*ssa.MakeInterface); ok && errno != nil && mi.X == errno {
@@ -1230,6 +1286,41 @@ func checkPrctlMust(e *Env, m *loaderModel, pc []*ssa.Call) {
 			walk(cal, 0)
 		}
 	}
+}
+
+// errnoHelper: func(e syscall.Errno) error that returns nil exactly when e == 0 and a non-nil error otherwise.
+func errnoHelper(h *ssa.Function) bool {
+	if h == nil || len(h.Blocks) == 0 || len(h.Params) != 1 || h.Signature.Results().Len() != 1 || !flow.IsErrorType(h.Signature.Results().At(0).Type()) {
+		return false
+	}
+	if !isNamed(h.Params[0].Type(), "syscall", "Errno") {
+		return false
+	}
+	e := h.Params[0]
+	nNil, nErr := 0, 0
+	for _, ret := range flow.Returns(h) {
+		v := flow.RetResults(ret)[0]
+		zero, nonzero := false, false
+		for _, cd := range flow.DomConds(ret.Block()) {
+			if pr, ok := flow.AsIntPred(cd.V, cd.Pol); ok && flow.StripConv(pr.X) == ssa.Value(e) {
+				if pr.OnlyZero() {
+					zero = true
+				}
+				if pr.NonZero() {
+					nonzero = true
+				}
+			}
+		}
+		switch {
+		case flow.IsNilConst(v) && zero:
+			nNil++
+		case nonzero && (flow.KnownNonNilError(v, ret.Block())):
+			nErr++
+		default:
+			return false
+		}
+	}
+	return nNil > 0 && nErr > 0
 }
 
 // checkPrctlArgs resolves the five arguments of the raw prctl site through the variadic copy.
@@ -1443,6 +1534,8 @@ func checkR1CasesRule(e *Env, m *loaderModel, s *rawSite, key, rule string) {
 	r1v := flow.ResultN(s.call, 0)
 	errv := flow.ResultN(s.call, 2)
 	type env struct{ flags, r1, op int64 }
+	// phi values are resolved by the edge the path came in on (short-circuit && / || in a case expression)
+	phiVal := map[*ssa.Phi]int64{}
 	var eval func(v ssa.Value, en env, depth int) (int64, bool)
 	eval = func(v ssa.Value, en env, depth int) (int64, bool) {
 		if depth > 20 {
@@ -1452,6 +1545,16 @@ func checkR1CasesRule(e *Env, m *loaderModel, s *rawSite, key, rule string) {
 			return k, true
 		}
 		switch x := v.(type) {
+		case *ssa.Const:
+			if x.Value != nil && x.Value.Kind() == constant.Bool {
+				if constant.BoolVal(x.Value) {
+					return 1, true
+				}
+				return 0, true
+			}
+		case *ssa.Phi:
+			k, ok := phiVal[x]
+			return k, ok
 		case *ssa.Parameter:
 			if x == fn.Params[1] {
 				return en.flags, true
@@ -1523,7 +1626,26 @@ func checkR1CasesRule(e *Env, m *loaderModel, s *rawSite, key, rule string) {
 			en := env{flags, r1, int64(or.Consts["SECCOMP_SET_MODE_FILTER"])}
 			b := fn.Blocks[0]
 			var ret *ssa.Return
+			var prev *ssa.BasicBlock
+			for k := range phiVal {
+				delete(phiVal, k)
+			}
 			for steps := 0; steps < 50 && b != nil; steps++ {
+				// bind the phis of this block by the incoming edge
+				for _, in := range b.Instrs {
+					ph, ok := in.(*ssa.Phi)
+					if !ok {
+						break
+					}
+					for i, pb := range b.Preds {
+						if pb == prev {
+							if v, ok := eval(ph.Edges[i], en, 0); ok {
+								phiVal[ph] = v
+							}
+						}
+					}
+				}
+				cur := b
 				last := b.Instrs[len(b.Instrs)-1]
 				switch x := last.(type) {
 				case *ssa.Return:
@@ -1545,6 +1667,7 @@ func checkR1CasesRule(e *Env, m *loaderModel, s *rawSite, key, rule string) {
 				default:
 					b = nil
 				}
+				prev = cur
 			}
 			if ret == nil {
 				und++
